@@ -15,6 +15,7 @@
 #define VF_INPUTS(X) VF_TREE_INPUTS(X) X(unsigned char, nullarg, )
 #define VF_MAXSZ 7
 #include "vf.h"
+#include "vf_str.h"
 #include "vf_tree.h"
 #define malloc vf_malloc
 #define free vf_free
